@@ -10,6 +10,8 @@ struct umem_count_mgr {
     struct umem_count_stats st;
     struct area *areas;
     size_t nareas, cap;
+    unsigned fail_in;           /* fault injection: the fail_in-th allocation / reallocation from now fails (0: disarmed) */
+    unsigned long failures;
 };
 
 UBASE_FROM_TO(umem_count_mgr, umem_mgr, umem_mgr, mgr)
@@ -44,6 +46,7 @@ static bool area_del(struct umem_count_mgr *m, uint8_t *base)
 static bool umem_count_alloc(struct umem_mgr *mgr, struct umem *umem, size_t size)
 {
     struct umem_count_mgr *m = umem_count_mgr_from_umem_mgr(mgr);
+    if (m->fail_in && --m->fail_in == 0) { m->failures++; return false; }
     uint8_t *buffer = malloc(size ? size : 1);
     if (buffer == NULL) return false;
     memset(buffer, 0xCD, size);
@@ -59,6 +62,7 @@ static bool umem_count_alloc(struct umem_mgr *mgr, struct umem *umem, size_t siz
 static bool umem_count_realloc(struct umem *umem, size_t new_size)
 {
     struct umem_count_mgr *m = umem_count_mgr_from_umem_mgr(umem->mgr);
+    if (m->fail_in && --m->fail_in == 0) { m->failures++; return false; }
     /* always move, so that stale pointers into the old area fault under ASan */
     uint8_t *buffer = malloc(new_size ? new_size : 1);
     if (buffer == NULL) return false;
@@ -126,4 +130,14 @@ bool umem_count_lookup(struct umem_mgr *mgr, const void *p, uint8_t **base_p, si
 bool umem_count_single(struct umem_mgr *mgr)
 {
     return urefcount_single(mgr->refcount);
+}
+
+void umem_count_fail_nth(struct umem_mgr *mgr, unsigned n)
+{
+    umem_count_mgr_from_umem_mgr(mgr)->fail_in = n;
+}
+
+unsigned long umem_count_failures(struct umem_mgr *mgr)
+{
+    return umem_count_mgr_from_umem_mgr(mgr)->failures;
 }
